@@ -158,7 +158,8 @@ class HashConstant(StringConstant):
             vocab_key = _HASH_REGEX[key][1]
             if not re.match(_HASH_REGEX[key][0], value):
                 raise ValueError("'%s' is not a valid %s hash" % (value, vocab_key))
-            super(HashConstant, self).__init__(value)
+        # Values of algorithms this library cannot check are kept as given.
+        super(HashConstant, self).__init__(value)
 
 
 class BinaryConstant(_Constant):
